@@ -5,6 +5,7 @@ import (
 	"encoding/hex"
 	"encoding/json"
 	"fmt"
+	"github.com/oasisprotocol/ed25519/zzsimrt"
 	"os"
 	"sync"
 	"syscall"
@@ -255,6 +256,13 @@ func (g *Guard) Contains(addr uintptr) bool {
 // Release unmaps the guarded memory. The Prepared it belongs to must not be
 // used afterwards.
 func (g *Guard) Release() {
+	if zzsimrt.LiveChildren() > 0 {
+		// goroutines the library started are still alive and may still read
+		// what their call was given (a real caller's slices would not vanish
+		// under them either): the pages stay, read-only, for good
+		g.chunks, g.cur, g.arrs = nil, nil, nil
+		return
+	}
 	for _, c := range g.chunks {
 		chunkReleases++
 		if noChunkReuse || chunkReleases%4 == 0 || len(chunkPool[len(c)]) >= 64 {
